@@ -73,6 +73,7 @@ def toMOp (ac : ApiCfg) (s : Sys) : Op → Option (MOp Int)
   | .clr x => some (.on x .clear)
   | .rsz x n => some (.on x (.resize n 0))
   | .rszv x n (.ext v) => some (.on x (.resizeVal n v))
+  | .rszv x n (.self i) => some (.on x (.resizeSelf n i))
   | .rsv x n => some (.on x (.reserve n))
   | .stf x => some (.on x .shrinkToFit)
   | .asn x n v => some (.on x (.assign n v))
@@ -85,7 +86,6 @@ def toMOp (ac : ApiCfg) (s : Sys) : Op → Option (MOp Int)
   | .appm x y => some (.appendMove x y)
   | .at x i => some (.on x (.atIdx i))
   | .get x i => some (.on x (.index i))
-  | _ => none
 
 /-- default construction IS range construction from an empty range (same program on every world) -/
 theorem ctorDefault_eq_fill (cfg : Cfg) (c a : Nat) (ch : Bool) (w : World Int) :
@@ -177,7 +177,7 @@ theorem bridge (ac : ApiCfg) (s : Sys) (op : Op) (m : MOp Int) (w0 : World Int) 
   | rszv x n arg =>
     cases arg with
     | ext v => injection h with h; subst h; simp only [opM, MOp.run, SOp.run, argSrc]; bridge_close
-    | self i => cases h
+    | self i => injection h with h; subst h; simp only [opM, MOp.run, SOp.run, argSrc, hh]; bridge_close
   | rsv x n => injection h with h; subst h; simp only [opM, MOp.run, SOp.run]; bridge_close
   | stf x => injection h with h; subst h; simp only [opM, MOp.run, SOp.run]; bridge_close
   | asn x n v => injection h with h; subst h; simp only [opM, MOp.run, SOp.run]; bridge_close
@@ -262,7 +262,7 @@ theorem bridge_valid_on (ac : ApiCfg) (s : Sys) (op : Op) (c : Nat) (sop : SOp I
   | rszv x n arg =>
     cases arg with
     | ext v => injection h with h; injection h with h1 h2; subst h1; subst h2; simp [Op.valid] at hv; exact ⟨hv, trivial⟩
-    | self i => cases h
+    | self i => injection h with h; injection h with h1 h2; subst h1; subst h2; simp [Op.valid] at hv; exact ⟨hv.1, hv.2⟩
   | rsv x n => injection h with h; injection h with h1 h2; subst h1; subst h2; simp [Op.valid] at hv; exact ⟨hv, trivial⟩
   | stf x => injection h with h; injection h with h1 h2; subst h1; subst h2; simp [Op.valid] at hv; exact ⟨hv, trivial⟩
   | asn x n v => injection h with h; injection h with h1 h2; subst h1; subst h2; simp [Op.valid] at hv; exact ⟨hv, trivial⟩
@@ -291,7 +291,7 @@ theorem bridge_valid_on (ac : ApiCfg) (s : Sys) (op : Op) (c : Nat) (sop : SOp I
   | «at» x i => injection h with h; injection h with h1 h2; subst h1; subst h2; simp [Op.valid] at hv; exact ⟨hv, trivial⟩
   | get x i => injection h with h; injection h with h1 h2; subst h1; subst h2; simp [Op.valid] at hv; exact ⟨hv.1, hv.2⟩
 
-/-- non-vacuity: the bridge covers 41 of the protocol's call forms; two instances -/
+/-- non-vacuity: the bridge covers 42 of the protocol's call forms; two instances -/
 example : toMOp { cfg := Ex.cfgT } (initSys 2 3) (.insn 0 1 3 (.self 0)) = some (.on 0 (.insertNSelf 1 3 0)) ∧
           toMOp { cfg := Ex.cfgT } (initSys 2 3) (.appm 0 2) = some (.appendMove 0 2) := ⟨rfl, rfl⟩
 
